@@ -1152,9 +1152,12 @@ class ByParty:
         :returns: Results of the evaluation by constituency.
         """
         overall_votes = votelib.convert.VoteTotals().convert(votes)
-        overall_result = self.overall_evaluator.evaluate(
-            overall_votes, n_seats
-        )
+        if n_seats is None:
+            overall_result = self.overall_evaluator.evaluate(overall_votes)
+        else:
+            overall_result = self.overall_evaluator.evaluate(
+                overall_votes, n_seats
+            )
         allocator = self.allocator
         if allocator is None:
             allocator = self.overall_evaluator
